@@ -236,6 +236,8 @@ def all_requirements_done(e, j):
                 if c[2] == mcall(elem, 'is_done'):
                     return True, "all(r.is_done() for r in job.required)"
                 return False, "all(...) over job.required of %s, not r.is_done()" % T.show(c[2], 3)
+    if e.st.known(req) is False or e.st.a('noreq') == j:
+        return True, "job.required is known to be empty on this path (nothing to wait for)"
     return False, "no universally quantified test of job.required on this path"
 
 
@@ -468,6 +470,11 @@ def detection_exact(ctx, rep, rule):
                        for alt in k[3] for a, _ in alt):
                     found = (k, elem, job)
         m += 1
+        if found is None and e.st.a('qdropped'):
+            rep.error(rule.replace('.1', '.2'), "%s: whether the abort test of this iteration precedes the start cannot be "
+                      "told: a statement about every done task (the emptiness of a filtered list, any() / all()) was made "
+                      "on one branch of an `if` and forgotten where the branches join" % e.where)
+            continue
         if found is None:
             rep.fail(rule.replace('.1', '.2'), "%s start after the abort test" % e.where, fn,
                      "successor started on a path where the critical-failure test of this iteration has not "
@@ -617,6 +624,67 @@ def deadline_in_helper_object(ctx, terms):
     return None
 
 
+def _must_store_attr(stmts, attr):
+    """does every fall-through path of the statement list store `self.<attr>`?  (None: it never falls through)"""
+    done = False
+    for s in stmts:
+        if isinstance(s, (ast.Return, ast.Raise, ast.Continue, ast.Break)):
+            return None if not done else True
+        if isinstance(s, (ast.Assign, ast.AnnAssign)):
+            tg = s.targets if isinstance(s, ast.Assign) else [s.target]
+            if any(isinstance(t, ast.Attribute) and t.attr == attr and isinstance(t.value, ast.Name)
+                   and t.value.id == 'self' for t in tg):
+                done = True
+        elif isinstance(s, ast.If):
+            b, e = _must_store_attr(s.body, attr), _must_store_attr(s.orelse, attr)
+            if b is None and e is None:
+                return None if not done else True
+            if (b is None or b) and (e is None or e):
+                done = True
+        elif isinstance(s, (ast.With, ast.AsyncWith)):
+            if _must_store_attr(s.body, attr):
+                done = True
+        elif isinstance(s, ast.Try):
+            if _must_store_attr(s.finalbody, attr):
+                done = True
+    return done
+
+
+def deadline_always_stored(ctx, rep, rule):
+    """the helper that records the deadline of a phase records it on every path - `None` included: the run and the
+    shutdown phase share the attribute, a path that leaves it alone hands the previous phase's deadline to the next"""
+    r = ctx.roles
+    D = r.deadline_attr
+    if D is None:
+        rep.error(rule, "deadline attribute not resolved")
+        return
+    n = 0
+    for c in r.sched.mro:
+        for f in c.methods.values():
+            if f.name == '__init__':
+                continue
+            if not any(isinstance(t, ast.Attribute) and t.attr == D and isinstance(t.ctx, ast.Store)
+                       for t in walk_local(f.node)):
+                continue
+            n += 1
+            # (an early `return` taken before any store leaves the old value in place just the same)
+            early = [x for x in walk_local(f.node) if isinstance(x, ast.Return)]
+            ok = _must_store_attr(f.node.body, D) is True and not any(
+                not _stored_before(f, x, D) for x in early)
+            rep.check(ok, rule, "%s records the deadline on every path" % f.qualname, f.qualname,
+                      "a path through %s leaves `self.%s` as it was" % (f.qualname, D),
+                      "the shutdown phase (or the next run) inherits the deadline of the phase before it: with "
+                      "shutdown_timeout=None the handlers are cancelled when the run's own timeout expires")
+    rep.need(rule, n, 1, "functions that store the deadline")
+
+
+def _stored_before(f, ret, attr):
+    for t in walk_local(f.node):
+        if isinstance(t, ast.Attribute) and t.attr == attr and isinstance(t.ctx, ast.Store) and t.lineno < ret.lineno:
+            return True
+    return False
+
+
 def deadline(ctx, rep, rule_fixed, rule_armed):
     r = ctx.roles
     an, ip, out = ctx.run()
@@ -758,6 +826,138 @@ def _eager_fallback(ctx, rep, r2):
                           "ready successors after the first are left waiting although a slot may be free")
 
 
+def main_wait_direct(ctx, rep, rule):
+    """the main wait is awaited as it is: its own `timeout=` makes it return with what has completed so far (an empty
+    done set = expiry).  Under an outer bound (asyncio.wait_for, asyncio.timeout) the expiry cancels the wait itself,
+    and whatever completed at that same instant is thrown away with it"""
+    from ..index import dotted
+    r = ctx.roles
+    sites = []
+    for c in r.sched.mro:
+        for f in c.methods.values():
+            parents = {}
+            for n in ast.walk(f.node):
+                for ch in ast.iter_child_nodes(n):
+                    parents[ch] = n
+            for n in walk_local(f.node):
+                if isinstance(n, ast.Call) and dotted(n.func) in ('asyncio.wait', 'wait') and any(
+                        k.arg == 'return_when' and (dotted(k.value) or '').endswith('FIRST_COMPLETED')
+                        for k in n.keywords):
+                    sites.append((f, n, parents))
+    rep.need(rule, len(sites), 1, "FIRST_COMPLETED waits of the scheduler class")
+    for f, n, parents in sites:
+        par = parents.get(n)
+        outer = None
+        if isinstance(par, ast.Call) and (dotted(par.func) or '').split('.')[-1] in ('wait_for', 'shield'):
+            outer = dotted(par.func)
+        p = par
+        while p is not None and outer is None:
+            if isinstance(p, (ast.AsyncWith, ast.With)):
+                for it in p.items:
+                    if isinstance(it.context_expr, ast.Call) and \
+                            (dotted(it.context_expr.func) or '').split('.')[-1] in ('timeout', 'timeout_at'):
+                        outer = dotted(it.context_expr.func)
+            p = parents.get(p)
+        ok = outer is None and isinstance(par, ast.Await)
+        if outer is None and not isinstance(par, ast.Await):
+            rep.error(rule, "%s:%d the main wait is not awaited on the spot: this rule cannot read this form"
+                      % (f.module.relpath, n.lineno))
+            continue
+        rep.check(ok, rule, "%s:%d the main wait is awaited as it is" % (f.module.relpath, n.lineno), f.qualname,
+                  "`%s` runs under %s" % (src(par)[:90], outer),
+                  "when the outer bound expires the wait is cancelled: jobs that completed at that very instant are "
+                  "not seen, the run reports a timeout although every job was done in time (timeout=0 with jobs "
+                  "that complete at once, a last completion landing with the deadline)")
+
+
+_ALL = None      # "every name": what a statement list that never falls through definitely assigns
+
+
+def _must_assign(stmts):
+    """names definitely assigned when the statement list falls through (None = it never does)"""
+    out = set()
+    for s in stmts:
+        if isinstance(s, (ast.Continue, ast.Break, ast.Return, ast.Raise)):
+            return _ALL
+        if isinstance(s, ast.Assign):
+            for t in s.targets:
+                out |= {n.id for n in ast.walk(t) if isinstance(n, ast.Name)}
+        elif isinstance(s, ast.AnnAssign) and s.value is not None and isinstance(s.target, ast.Name):
+            out.add(s.target.id)
+        elif isinstance(s, ast.If):
+            b, e = _must_assign(s.body), _must_assign(s.orelse)
+            if b is _ALL and e is _ALL:
+                return _ALL
+            out |= e if b is _ALL else b if e is _ALL else (b & e)
+        elif isinstance(s, (ast.With, ast.AsyncWith)):
+            b = _must_assign(s.body)
+            if b is _ALL:
+                return _ALL
+            out |= b
+        elif isinstance(s, ast.Try):
+            parts = [_must_assign(s.body + s.orelse)] + [_must_assign(h.body) for h in s.handlers]
+            live = [p_ for p_ in parts if p_ is not _ALL]
+            if live:
+                acc = set(live[0])
+                for p_ in live[1:]:
+                    acc &= p_
+                out |= acc
+            f_ = _must_assign(s.finalbody)
+            if f_ is _ALL or not live:
+                return _ALL
+            out |= f_
+    return out
+
+
+def _carried_guard_names(r, loop):
+    """names tested by the conditions that guard the start inside the candidate loop, assigned in the body of the
+    loop, but not definitely assigned in it on the way to the test: state carried from one candidate to the next"""
+    start = r.start_fn.name if r.start_fn is not None else None
+    hits = []
+
+    def has_start(s):
+        return any(isinstance(c, ast.Call) and isinstance(c.func, ast.Attribute) and c.func.attr == start
+                   for c in ast.walk(s))
+
+    def find(stmts, tests, assigned):
+        assigned = set(assigned)
+        for s in stmts:
+            if has_start(s):
+                if isinstance(s, ast.If):
+                    # (what the test reads is judged with what was assigned before it)
+                    hits.append((tests + [s.test], set(assigned), True))
+                    find(s.body, tests + [s.test], assigned)
+                    find(s.orelse, tests + [s.test], assigned)
+                elif isinstance(s, (ast.For, ast.AsyncFor, ast.While, ast.With, ast.AsyncWith, ast.Try)):
+                    for fld in ('body', 'orelse', 'finalbody'):
+                        find(getattr(s, fld, []) or [], tests, assigned)
+                    for h in getattr(s, 'handlers', []) or []:
+                        find(h.body, tests, assigned)
+                else:
+                    hits.append((tests, set(assigned), False))
+            m = _must_assign([s])
+            if m is _ALL:
+                return
+            assigned |= m
+    find(loop.body, [], set())
+    comp_local = {n.id for b in loop.body for c in ast.walk(b) if isinstance(c, ast.comprehension)
+                  for n in ast.walk(c.target) if isinstance(n, ast.Name)}
+    stored = {n.id for b in loop.body for n in ast.walk(b) if isinstance(n, ast.Name) and isinstance(n.ctx, ast.Store)}
+    stored -= comp_local            # (the target of a comprehension is local to it)
+    target = {n.id for n in ast.walk(loop.target) if isinstance(n, ast.Name)}
+    out, seen = [], set()
+    for tests, assigned, _is_if in hits:
+        if not tests:
+            continue
+        t = tests[-1]
+        for n in ast.walk(t):
+            if isinstance(n, ast.Name) and n.id in stored and n.id not in assigned and n.id not in target \
+                    and n.id not in seen:
+                seen.add(n.id)
+                out.append((n.id, t))
+    return out
+
+
 def eager(ctx, rep, r1, r2, r3, r4):
     r = ctx.roles
     try:
@@ -784,6 +984,18 @@ def eager(ctx, rep, r1, r2, r3, r4):
             rep.check(e.data['phase'] == 'Live', r1, "%s first wait follows the entry starts" % e.where, fn,
                       "first main wait reached in state %s" % e.data['phase'],
                       "the run waits before having started its entry jobs", trace(e.st))
+    for e in an.events('RET'):
+        if e.st.a('nstart', 0) and e.data['phase'] != 'NoTasks':
+            rep.check(e.st.a('nwait', 0) >= 1, r1, "%s no verdict before the first wait" % e.where, fn,
+                      "`%s` reached after the entry jobs were given a task, on a path that never waits for them"
+                      % src(stmt_of(e.node)),
+                      "the run is over before its entry jobs have made a single step (a scheduler whose jobs all run "
+                      "for ever, say): none of its jobs ever starts", trace(e.st))
+    for st in out.nxt:
+        if st.a('nstart', 0) and st.a('nwait', 0) == 0:
+            rep.fail(r1, "%s no end before the first wait" % fn, fn,
+                     "the end of the function is reached after the entry jobs were given a task, on a path that never "
+                     "waits for them", "the run is over before its entry jobs have made a single step", trace(st))
     # R12.2 candidates = union over ALL done tasks of their successors; every candidate visited
     ss = succ_starts(an)
     rep.need(r2, len(ss), 1, "successor starts")
@@ -802,6 +1014,14 @@ def eager(ctx, rep, r1, r2, r3, r4):
                       % src(lp.node.iter if hasattr(lp.node, 'iter') else lp.node),
                       "ready successors after the first are left waiting although a slot may be free",
                       trace(e.st))
+        if lp is not None and lp.kind == 'for':
+            for name, test in _carried_guard_names(r, lp.node):
+                rep.fail(r4, "%s guard is computed afresh for each candidate" % e.where, fn,
+                         "`%s` is tested by `if %s` but is not re-initialised for each candidate of `for %s in %s`: "
+                         "it carries what the previous candidates left in it"
+                         % (name, src(test)[:80], src(lp.node.target), src(lp.node.iter)[:60]),
+                         "once one candidate is refused, the ready candidates visited after it are refused too: "
+                         "they never start", trace(e.st))
     # R12.3 backlinks fresh: built on every path before the first start
     for e in es:
         rep.check(e.data['built'], r3, "%s reverse links rebuilt before the first start" % e.where, fn,
@@ -821,6 +1041,8 @@ def eager(ctx, rep, r1, r2, r3, r4):
                 continue
             if k[0] in ('forall', 'exists') and strip_coll(k[1]) == req:
                 continue
+            if k == req:
+                continue            # "it has no requirement at all" is the vacuous case of "all of them are done"
             if k[0] == 'call' and k[1] == 'all':
                 continue
             if k[0] == 'mcall' and k[1] == j and k[2] in ('is_running', 'is_scheduled', 'is_idle', 'is_done'):
